@@ -455,7 +455,8 @@ def native_replay(job, ins, outdir):
     exe = os.path.join(scratch(), "replay-%s" % hashlib.md5((job.name + str(time.time())).encode()).hexdigest()[:10])
     hpath = os.path.join(VERIF, "harness", job.harness)
     srcs = [hpath] + [src_path(s) for s in job.extra_sources]
-    cmd = (["gcc", "-O0", "-g", "-w", "-fsanitize=address,undefined", "-fno-sanitize-recover=undefined", "-msse2", "-mssse3"]
+    cmd = (["gcc", "-O0", "-g", "-w", "-fsanitize=address,undefined", "-fno-sanitize-recover=undefined", "-msse2", "-mssse3",
+            "-ffunction-sections", "-fdata-sections", "-Wl,--gc-sections"]
            + include_flags() + define_flags(job, {"VH_REPLAY": 1, "VH_ENTRY": job.entry, "VH_INPUTS_FILE": '"%s"' % inp})
            + srcs + ["-o", exe, "-lm", "-lpthread"])
     rc, out, err, _, _ = sh(cmd, timeout=300)
@@ -463,8 +464,10 @@ def native_replay(job, ins, outdir):
     with open(script, "w") as f:
         f.write("#!/bin/sh\n# native replay of the verifier's counterexample against the real code in %s\n" % REPO)
         f.write("# exit 1 + REPLAY-CHECK-FAILED / sanitizer report = violation reproduced; exit 0 = not reproduced; exit 3 = precondition not met\n")
-        f.write("set -e\nT=$(mktemp -d)\n")
-        f.write(" ".join("'%s'" % c if " " in c or '"' in c else c for c in cmd).replace(exe, "$T/replay") + "\n")
+        f.write("T=$(mktemp -d)\n")
+        f.write("if [ -f %s/_build/pixman/config.h ]; then CFG=%s/_build/pixman; else CFG=%s/cfg; fi\n" % (REPO, REPO, VERIF))
+        f.write(" ".join("'%s'" % c if " " in c or '"' in c else c for c in cmd).replace(exe, "$T/replay")
+                .replace("-I" + os.path.join(scratch(), "cfg"), "-I$CFG") + " || exit 2\n")
         f.write("$T/replay; rc=$?; rm -rf $T; exit $rc\n")
     os.chmod(script, 0o755)
     if rc != 0:
